@@ -189,6 +189,26 @@ VF_PROPERTY(corrupted_documents, 5, "one byte of a valid document is replaced (a
 	}
 }
 
+VF_PROPERTY(special_float_keys, 2, "maps whose keys are float64 / float32 values including +0.0, -0.0, infinities, NaN (several payloads), subnormals, in any order and width, loaded into std::map<double,int>, std::unordered_map<double,int> and std::map<float,int> from memory and streams: the load terminates, and every key that is not NaN is present with its value; non-trivial = at least one NaN or zero key")
+{
+	size_t n = 1 + c.src.len(12); std::vector<std::pair<Val, Val>> m; bool special = false; std::vector<std::pair<double, int>> want;
+	for (size_t i = 0; i < n; i++) {
+		double k; switch (c.src.draw(7)) { case 0: k = 0.0; special = true; break; case 1: k = -0.0; special = true; break; case 2: { uint64_t b = 0x7ff8000000000000ull | c.src.draw(1 << 20) | (c.src.coin() ? 0x8000000000000000ull : 0); memcpy(&k, &b, 8); special = true; break; } case 3: k = c.src.coin() ? INFINITY : -INFINITY; break; case 4: k = 4.9e-324 * static_cast<double>(1 + c.src.draw(5)); break; default: k = static_cast<double>(static_cast<int>(c.src.draw(41)) - 20) * 0.5; break; }
+		const int v = static_cast<int>(i) + 1; const bool asF32 = c.src.chance(1, 4) && static_cast<double>(static_cast<float>(k)) == k;
+		m.push_back({ asF32 ? refmp::mkF32(static_cast<float>(k)) : refmp::mkF64(k), refmp::mkInt(v) });
+		if (!std::isnan(k)) { bool dup = false; for (auto& w : want) if (w.first == k) { w.second = v; dup = true; } if (!dup) want.push_back({ k, v }); }
+	}
+	bool nm = false; std::string bytes; encode_tree(bytes, refmp::mkMap(m), c.src, true, nm, true); const Cfg cfg = gen_read_cfg(c.src);
+	c.nontrivial = special; c.describe(vf::cat("float keys n=", n, " ", vf::hex(bytes.substr(0, 120)), " ", cfg.str()));
+	auto check = [&](auto& target, const char* tn) {
+		Outcome lo = load<MsgPackArchive>(target, bytes, cfg); const std::string d = vf::cat(tn, " ", vf::hex(bytes.substr(0, 240)), " [", cfg.str(), "] => ", lo.str(), " size=", target.size());
+		if (!lo.ok()) c.fail("a valid map with floating-point keys was rejected", d);
+		for (auto& w : want) { auto it = target.find(static_cast<typename std::decay_t<decltype(target)>::key_type>(w.first)); if (it == target.end()) c.fail("a non-NaN key is missing after loading", vf::cat(d, " key=", w.first)); }
+	};
+	std::map<double, int> md; check(md, "map<double,int>"); std::unordered_map<double, int> um; check(um, "unordered_map<double,int>");
+	for (auto& w : want) if (um.find(w.first) != um.end() && um[w.first] != w.second && !(w.first == 0)) c.fail("a key is loaded with the value of another entry", vf::cat(vf::hex(bytes.substr(0, 240)), " key=", w.first, " value=", um[w.first], " want=", w.second));
+}
+
 VF_PROPERTY(kf35_reader_ts96, 1, "witness of KF-35 (reader side)")
 {
 	const int64_t secs = -1 - static_cast<int64_t>(c.src.draw(100000)); const uint32_t ns = static_cast<uint32_t>(c.src.draw(1000));
